@@ -78,7 +78,7 @@ Print Assumptions C15_strict_values_roundtrip.
    json_image v = Some v, evaluated for every value of every case), not by a theorem. *)
 Theorem C15_rejected_shapes_partial :
   (forall l, check_value (PTuple l) = false /\ json_image (PTuple l) <> Some (PTuple l)) /\
-  (check_value POther = false /\ json_image POther = None) /\
+  (forall e, check_value (POther e) = false /\ json_image (POther e) = None) /\
   (forall l k v, In (k, v) l -> key_is_str k = false -> json_image (PDict l) <> Some (PDict l)).
 Proof. split; [exact rejected_tuple|split; [exact rejected_other|exact rejected_nonstr_key]]. Qed.
 Print Assumptions C15_rejected_shapes_partial.
